@@ -15,8 +15,9 @@ ASSUMPTIONS = ["fixedint UInt16/UInt12 wrap-around"]
 
 def cases(rng, tier):
     n = 300 if tier == "quick" else 4000
-    for _ in range(n):
-        yield toygen.image_case(rng, toygen.mixed_calls, max_steps=rng.choice([6, 20, 50]), suite="toy-calls")
+    for i in range(n):
+        c_ = toygen.image_case(rng, toygen.mixed_calls, max_steps=rng.choice([6, 20, 50]), suite="toy-calls")
+        yield toygen.as_text_case(c_) if i % 3 == 2 else c_          # every third image goes through the loader
 
 
 def nontrivial(c):
